@@ -1,4 +1,5 @@
-"""Tracing recipe for C10: intersection geometry (both APIs)."""
+"""Tracing recipe for C10: intersection geometry (both APIs).  No local variable of the traced functions is
+referred to by name (so renaming / restructuring their bodies does not break the trace)."""
 from tracer import shim
 from tracer.emit import Gen
 
@@ -7,14 +8,17 @@ RARGS = shim.names('r', (1, 2, 3))
 PARGS = shim.names('p', (1, 3))
 T2 = shim.names('t', (2, 3, 3))
 R2 = shim.names('r', (2, 2, 3))
+P2 = shim.names('p', (2, 3))
+PB = shim.names('p', (2, 2, 3))
 
 
 def trace():
     g = Gen()
     # ---------------- PyTorch API
     ns = shim.base_namespace()
-    shim.load('odak/learn/raytracing/primitives.py', ['center_of_triangle', 'is_it_on_triangle', 'is_it_on_triangle_batch'], ns,
-              expose={'is_it_on_triangle': ['u', 'v']})
+    for f in ('odak/learn/tools/vector.py', 'odak/learn/raytracing/ray.py', 'odak/learn/raytracing/primitives.py', 'odak/learn/raytracing/boundary.py'):
+        shim.load_all(f, ns)                      # helpers the traced functions may call
+    shim.load('odak/learn/raytracing/primitives.py', ['center_of_triangle', 'is_it_on_triangle', 'is_it_on_triangle_batch'], ns)
     shim.load('odak/learn/raytracing/boundary.py', ['get_triangle_normal', 'intersect_w_surface', 'intersect_w_surface_batch'], ns)
     tri = shim.sym('t', (3, 3)); ray = shim.sym('r', (1, 2, 3)); p = shim.sym('p', (1, 3))
     n = ns['get_triangle_normal'](tri)
@@ -28,11 +32,29 @@ def trace():
         g.add('t_hit_%d' % k, TARGS + RARGS, nn[0, 0, k]); g.add('t_hitn_%d' % k, TARGS + RARGS, nn[0, 1, k])
     flag = ns['is_it_on_triangle'](p, tri)
     assert flag.shape == (1, 1)
-    g.add('t_u', TARGS + PARGS, ns['__exposed__']['is_it_on_triangle.u'][0, 0])
-    g.add('t_v', TARGS + PARGS, ns['__exposed__']['is_it_on_triangle.v'][0, 0])
     g.add('t_flag', TARGS + PARGS, flag[0, 0])
-    # batch: 2 triangles x 2 rays; every entry must be the single-pair formula
-    tri2 = shim.sym('t', (2, 3, 3)); ray2 = shim.sym('r', (2, 2, 3))
+    # the flag functions at symbolic points (two points against one triangle; 2 x 2 points against two triangles)
+    f2 = ns['is_it_on_triangle'](shim.sym('p', (2, 3)), tri)
+    assert f2.shape == (1, 2), f2.shape
+    for j in range(2):
+        g.add('tf2_flag_%d' % j, TARGS + P2, f2[0, j])
+    fbp = ns['is_it_on_triangle_batch'](shim.sym('p', (2, 2, 3)), shim.sym('t', (2, 3, 3)))
+    assert fbp.shape == (2, 2), fbp.shape
+    for i in range(2):
+        for j in range(2):
+            g.add('tbf_flag_%d_%d' % (i, j), T2 + PB, fbp[i, j])
+    # several rays against ONE triangle (the single-triangle functions accept a batch of rays)
+    ray2 = shim.sym('r', (2, 2, 3))
+    nm, dm = ns['intersect_w_surface'](ray2, tri)
+    assert nm.shape == (2, 2, 3) and dm.shape == (2, 1), (nm.shape, dm.shape)
+    fm = ns['is_it_on_triangle'](nm[:, 0], tri)
+    assert fm.shape == (1, 2), fm.shape
+    for j in range(2):
+        g.add('tm_dist_%d' % j, TARGS + R2, dm[j, 0]); g.add('tm_flag_%d' % j, TARGS + R2, fm[0, j])
+        for k in range(3):
+            g.add('tm_hit_%d_%d' % (j, k), TARGS + R2, nm[j, 0, k]); g.add('tm_hitn_%d_%d' % (j, k), TARGS + R2, nm[j, 1, k])
+    # batch: 2 triangles x 2 rays
+    tri2 = shim.sym('t', (2, 3, 3))
     nb, db = ns['intersect_w_surface_batch'](ray2, tri2)
     assert nb.shape == (2, 2, 2, 3) and db.shape == (2, 2), (nb.shape, db.shape)
     fb = ns['is_it_on_triangle_batch'](nb[:, :, 0], tri2)
@@ -44,11 +66,10 @@ def trace():
             for k in range(3):
                 g.add('tb_hit_%d_%d_%d' % (i, j, k), T2 + R2, nb[i, j, 0, k])
                 g.add('tb_hitn_%d_%d_%d' % (i, j, k), T2 + R2, nb[i, j, 1, k])
-    # single-pair flag of the single-pair hit point (what intersect_w_triangle computes)
-    fl1 = ns['is_it_on_triangle'](nn[:, 0], tri)
-    g.add('t_hitflag', TARGS + RARGS, fl1[0, 0])
     # ---------------- NumPy API
     ns2 = shim.base_namespace()
+    for f in ('odak/tools/vector.py', 'odak/raytracing/ray.py', 'odak/raytracing/primitives.py', 'odak/raytracing/boundary.py'):
+        shim.load_all(f, ns2)
     shim.load('odak/raytracing/primitives.py', ['center_of_triangle'], ns2)
     shim.load('odak/raytracing/boundary.py', ['get_triangle_normal', 'intersect_w_surface'], ns2)
     tri = shim.sym('t', (3, 3)); ray1 = shim.sym('r_0', (2, 3))
@@ -61,4 +82,11 @@ def trace():
     g.add('n_dist', TARGS + RARGS, dist[0])
     for k in range(3):
         g.add('n_hit_%d' % k, TARGS + RARGS, nn[0, k]); g.add('n_hitn_%d' % k, TARGS + RARGS, nn[1, k])
+    nm, dm = ns2['intersect_w_surface'](shim.sym('r', (2, 2, 3)), tri)
+    dm = shim.wrap(dm).reshape(-1)
+    assert nm.shape == (2, 2, 3) and dm.shape == (2,), (nm.shape, dm.shape)
+    for j in range(2):
+        g.add('nm_dist_%d' % j, TARGS + R2, dm[j])
+        for k in range(3):
+            g.add('nm_hit_%d_%d' % (j, k), TARGS + R2, nm[j, 0, k]); g.add('nm_hitn_%d_%d' % (j, k), TARGS + R2, nm[j, 1, k])
     return g
